@@ -15,12 +15,24 @@ type pipeT struct {
 	E *pipeIn
 }
 
+// pipeFoldT is what the pipelines fold: pipeT plus an inlined interface member (its
+// compiled folder keeps per-fold state). The unfold target is pipeT: the member the
+// inlined map contributes has no field there and is skipped.
+type pipeFoldT struct {
+	A int    `struct:"a"`
+	B string `struct:"b,omitempty"`
+	C []int8
+	D map[string]int
+	E *pipeIn
+	I interface{} `struct:",inline"`
+}
+
 type pipeIn struct{ X uint16 }
 
 // pipeline: fold a value of a struct type (first use of the type on this iterator:
 // reflection based compilation of its folder) into an encoder, parse the bytes, unfold
 // into a fresh variable of the same type (first use for the unfolder as well).
-func pipeline(c *codec, v *pipeT, out *pipeT, errOut *error) func() {
+func pipeline(c *codec, v *pipeFoldT, out *pipeT, errOut *error) func() {
 	return func() {
 		s := &sink{}
 		if err := gotype.Fold(*v, c.newVisitor(s)); err != nil {
@@ -47,7 +59,7 @@ func TWO_PIPELINES(h *rt.H) {
 	a, cc, d, x := h.U8("A"), h.U8("C"), h.U8("D"), h.U8("X")
 	// one decimal digit each: the number encodings are C01's subject
 	h.Assume(a <= 9 && cc <= 9 && d <= 9 && x <= 9)
-	in := &pipeT{A: int(a), C: []int8{int8(cc)}, D: map[string]int{"k": int(d)}, E: &pipeIn{X: uint16(x)}}
+	in := &pipeFoldT{A: int(a), C: []int8{int8(cc)}, D: map[string]int{"k": int(d)}, E: &pipeIn{X: uint16(x)}, I: map[string]interface{}{"i": int(x)}}
 	if h.Choose("hasB", 0, 1) == 1 {
 		b := h.Bytes("B", 1)
 		h.Assume(b[0] >= 'a' && b[0] <= 'z')
